@@ -6,7 +6,7 @@ use crate::iso::{IsoDate, IsoTime};
 use crate::options::{ArithmeticOverflow, Disambiguation, OffsetDisambiguation};
 use crate::parsers::{parse_date_time, parse_zoned_date_time};
 use crate::provider::TimeZoneProvider;
-use crate::{TemporalResult, TemporalUnwrap};
+use crate::{TemporalError, TemporalResult, TemporalUnwrap};
 
 use ixdtf::parsers::records::UtcOffsetRecordOrZ;
 
@@ -66,6 +66,16 @@ impl RelativeTo {
         };
 
         let timezone = TimeZone::from_time_zone_record(annotation.tz)?;
+
+        // The offset of a date-time string has at most nine fractional digits.
+        if let Some(UtcOffsetRecordOrZ::Offset(offset)) = result.offset {
+            if let Some(fraction) = offset.fraction {
+                if fraction.to_nanoseconds().is_none() {
+                    return Err(TemporalError::range()
+                        .with_message("fractional seconds exceeds nine digits."));
+                }
+            }
+        }
 
         let (offset_nanos, is_exact) = result
             .offset
